@@ -670,8 +670,8 @@ def c09(X, src):
         for t in ref:
             if t.start[0] != t.end[0]:
                 first = src.split("\n")[t.start[0] - 1] if t.start[0] - 1 < len(src.split("\n")) else ""
-                if not first.isascii():
-                    return None
+                if not first.isascii() or not t.string.isascii():
+                    return None     # ... and derives the END column of a multi-line token from bytes when the token itself holds non-ASCII text
     kind, toks = run_tokens(X, src)
     if kind != "ok":
         e = toks[0] if isinstance(toks, tuple) else None
